@@ -1486,6 +1486,18 @@ impl SimRing {
         fd as i32
     }
 
+    /// Like `fresh_fd`, but the descriptor number is at least `min` (so numbers
+    /// can be kept unique within a case even though closed numbers are reused).
+    pub fn fresh_fd_min(&mut self, min: i32) -> i32 {
+        let fd = self.fresh_fd();
+        let dup = unsafe { raw_syscall(libc::SYS_fcntl, fd as i64, libc::F_DUPFD_CLOEXEC as i64, min as i64, 0, 0, 0) };
+        assert!(dup >= 0);
+        unsafe { raw_syscall(libc::SYS_close, fd as i64, 0, 0, 0, 0, 0) };
+        self.issued_fds.retain(|f| *f != fd);
+        self.issued_fds.push(dup as i32);
+        dup as i32
+    }
+
     /// Allocate a direct descriptor slot.
     pub fn fresh_direct(&mut self) -> Option<u32> {
         let files = self.files.as_mut()?;
